@@ -22,172 +22,257 @@
 (* Decide3 answers "is |r - x| < ulp_p(x) for the true x" from an interval *)
 (* known to contain x: HOLDS / FAILS / UNDECIDED.  The module is checked   *)
 (* by MC_Enclosure (literal constants to 60 digits, exp(ln x) round trips, *)
-(* width monotonicity) before any monitor verdict is believed.             *)
+(* width monotonicity, the kernels against BigNat) before any monitor      *)
+(* verdict is believed.                                                    *)
+(*                                                                         *)
+(* Evaluation discipline.  TLC re-evaluates a LET definition at every use  *)
+(* but evaluates an operator *argument* at most once (lazily).  Everything *)
+(* costly that is used twice is therefore passed as an argument: the       *)
+(* operators below come in chains  F(x) == F1(x, G(x)),  and the           *)
+(* arithmetic kernels FAdd / FMul / FMulSmall / FDivModSmall / FDivMod     *)
+(* restate the schoolbook algorithms of BigNat in that style (2-60 times   *)
+(* faster under TLC; same values - checked in MC_Enclosure).               *)
 (***************************************************************************)
 EXTENDS FloatDef
 
-FxOne(nb) == ShlBytes(One, nb)
+\* call-by-need binding: Let(e, LAMBDA t : body) evaluates e once
+Let(v, Body(_)) == Body(v)
+
+\* ---------------------------------------------------------------- arithmetic kernels (naturals)
+CarryOut(t, out) == <<t \div LB, Append(out, t % LB)>>
+FinCarry(r) == IF r[1] = 0 THEN r[2] ELSE Append(r[2], r[1])
+FAdd(a, b) ==
+  FinCarry(FoldLeftDomain(LAMBDA acc, i : CarryOut(Limb(a, i) + Limb(b, i) + acc[1], acc[2]),
+                          <<0, <<>> >>, Zeros(Max2(Len(a), Len(b)))))
+
+FMulCol(a, b, la, lb, k) == FoldSet(LAMBDA i, acc : acc + a[i] * b[k + 1 - i], 0, Max2(1, k + 1 - lb)..Min2(k, la))
+FMul(a, b) ==
+  IF a = <<>> \/ b = <<>> THEN <<>>
+  ELSE Norm(FoldLeftDomain(LAMBDA acc, k : CarryOut(FMulCol(a, b, Len(a), Len(b), k) + acc[1], acc[2]),
+                           <<0, <<>> >>, Zeros(Len(a) + Len(b)))[2])
+
+\* a * k, native 0 <= k < 2^22
+FlushCarry(out, c) == IF c = 0 THEN out ELSE IF c < LB THEN Append(out, c)
+                      ELSE IF c < LB * LB THEN out \o <<c % LB, c \div LB>>
+                      ELSE out \o <<c % LB, (c \div LB) % LB, c \div (LB * LB)>>
+FMulSmallFin(r) == FlushCarry(r[2], r[1])
+FMulSmall(a, k) ==
+  IF k = 0 \/ a = <<>> THEN <<>>
+  ELSE FMulSmallFin(FoldLeftDomain(LAMBDA acc, i : CarryOut(a[i] * k + acc[1], acc[2]), <<0, <<>> >>, a))
+
+\* <<quotient, native remainder>> by a native 1 <= k < 2^22
+DivStepSmall(t, k, out) == <<t % k, <<t \div k>> \o out>>
+FDivModSmallFin(r) == <<Norm(r[2]), r[1]>>
+FDivModSmall(a, k) ==
+  FDivModSmallFin(FoldRight(LAMBDA d, acc : DivStepSmall(acc[1] * LB + d, k, acc[2]), a, <<0, <<>> >>))
+
+(* General division, Knuth D on byte limbs.  The trial digit from the top three limbs of the
+   running remainder and the top two of the divisor is never below the true digit and at most
+   two above; it is corrected downwards.  Asserts guard both facts: a flaw here is a tool error. *)
+RECURSIVE KCorr(_, _, _, _, _)
+KCorr(b, rem, q, p, tries) ==
+  IF Cmp(p, rem) <= 0 THEN <<q, p>>
+  ELSE IF tries = 0 THEN Assert(FALSE, <<"Enclosure!FDivMod digit correction failed", rem, b>>)
+  ELSE KCorr(b, rem, q - 1, Sub(p, b), tries - 1)
+KTrial(rem, n, dt) == Min2(255, (((Limb(rem, n + 1) * LB + Limb(rem, n)) * LB + Limb(rem, n - 1)) + 1) \div dt)
+KDigit2(b, rem, q0) == KCorr(b, rem, q0, FMulSmall(b, q0), 3)
+KStep3(nr, b, q, quo) == IF Cmp(nr, b) < 0 THEN <<nr, <<q>> \o quo>>
+                         ELSE Assert(FALSE, <<"Enclosure!FDivMod remainder not reduced", nr, b>>)
+KStep2(qp, rem, b, quo) == KStep3(Sub(rem, qp[2]), b, qp[1], quo)
+KStep1(b, n, dt, rem, quo) == KStep2(KDigit2(b, rem, KTrial(rem, n, dt)), rem, b, quo)
+KStep(b, n, dt, acc, d) ==
+  KStep1(b, n, dt, IF acc[1] = <<>> THEN (IF d = 0 THEN <<>> ELSE <<d>>) ELSE <<d>> \o acc[1], acc[2])
+FDivModFin(r) == <<Norm(r[2]), r[1]>>
+FDivModSmallNat(qr) == <<qr[1], FromNat(qr[2])>>
+\* <<quotient, remainder>>, b # 0
+FDivMod(a, b) ==
+  IF Cmp(a, b) < 0 THEN <<(<<>>), a>>
+  ELSE IF Len(b) = 1 THEN FDivModSmallNat(FDivModSmall(a, b[1]))
+  ELSE FDivModFin(FoldRight(LAMBDA d, acc : KStep(b, Len(b), b[Len(b)] * LB + b[Len(b) - 1], acc, d),
+                            a, <<(<<>>), (<<>>)>>))
+FDivFloor(a, b) == FDivMod(a, b)[1]
+FDivCeilFin(qr) == IF qr[2] = <<>> THEN qr[1] ELSE FAdd(qr[1], One)
+FDivCeil(a, b) == FDivCeilFin(FDivMod(a, b))
+
+\* a * 2^k, native k >= 0
+FShl(a, k) == ShlBytes(FMulSmall(a, Pow2Small(k % 8)), k \div 8)
+\* a^n by binary powering, native n >= 0
+FPowFin(r) == r[1]
+FPowStep(acc, bit, last) == <<IF bit = 1 THEN FMul(acc[1], acc[2]) ELSE acc[1], IF last THEN acc[2] ELSE FMul(acc[2], acc[2])>>
+FPowBits(a, bits) == FPowFin(FoldLeftDomain(LAMBDA acc, i : FPowStep(acc, bits[i], i = Len(bits)), <<One, a>>, bits))
+FPow(a, n) == FPowBits(a, NatBits(n))
+
+\* ---------------------------------------------------------------- signed integers and rationals
+FIAddC(x, y, c) == IF c = 0 THEN IZero ELSE IF c > 0 THEN I(x.s, Sub(x.m, y.m)) ELSE I(y.s, Sub(y.m, x.m))
+FIAdd(x, y) == IF x.s = y.s THEN I(x.s, FAdd(x.m, y.m)) ELSE FIAddC(x, y, Cmp(x.m, y.m))
+FISub(x, y) == FIAdd(x, INeg(y))
+FIMul(x, y) == I((x.s + y.s) % 2, FMul(x.m, y.m))
+FIMulSmall(x, k) == IF k < 0 THEN I(1 - x.s, FMulSmall(x.m, -k)) ELSE I(x.s, FMulSmall(x.m, k))
+FICmp(x, y) == IF x.s # y.s THEN (IF x.s = 1 THEN -1 ELSE 1) ELSE IF x.s = 0 THEN Cmp(x.m, y.m) ELSE Cmp(y.m, x.m)
+
 QOne == Q(IOne, One)
+FQAdd(p, q) == IF p.d = q.d THEN Q(FIAdd(p.n, q.n), p.d)
+               ELSE Q(FIAdd(FIMul(p.n, IFromNat(q.d)), FIMul(q.n, IFromNat(p.d))), FMul(p.d, q.d))
+FQSub(p, q) == FQAdd(p, QNeg(q))
+FQMul(p, q) == Q(FIMul(p.n, q.n), FMul(p.d, q.d))
+FQCmp(p, q) == IF p.n.s # q.n.s THEN (IF p.n.s = 1 THEN -1 ELSE 1)
+               ELSE IF p.d = q.d THEN FICmp(p.n, q.n)
+               ELSE FICmp(FIMul(p.n, IFromNat(q.d)), FIMul(q.n, IFromNat(p.d)))
+FQLt(p, q) == FQCmp(p, q) < 0
+FQLe(p, q) == FQCmp(p, q) <= 0
+FQMulNat(q, m) == Q(I(q.n.s, FMul(q.n.m, m)), q.d)
+QMin(a, b) == IF FQLe(a, b) THEN a ELSE b
+QMax(a, b) == IF FQLe(a, b) THEN b ELSE a
+\* B^k as a rational, any native k
+FQPowBase(B, k) == IF k >= 0 THEN Q(I(0, FPow(FromNat(B), k)), One) ELSE Q(IOne, FPow(FromNat(B), -k))
+\* q^n for a native integer n (q # 0 when n < 0)
+QPowPos(q, n) == Q(I(IF n % 2 = 1 THEN q.n.s ELSE 0, FPow(q.n.m, n)), FPow(q.d, n))
+QPowInt(q, n) == IF n >= 0 THEN QPowPos(q, n) ELSE QInv(QPowPos(q, -n))
+\* value of a float [sig, exp] in base B
+FFVal(B, f) == IF f.exp >= 0 THEN Q(I(f.sig.s, FMul(f.sig.m, FPow(FromNat(B), f.exp))), One)
+               ELSE Q(f.sig, FPow(FromNat(B), -f.exp))
 
 \* ---------------------------------------------------------------- directed primitives (naturals)
-NShrCeil(a, n) == IF LowBytes(a, n) = <<>> THEN ShrBytes(a, n) ELSE Add(ShrBytes(a, n), One)
-NMulLo(a, b, nb) == ShrBytes(Mul(a, b), nb)
-NMulHi(a, b, nb) == NShrCeil(Mul(a, b), nb)
-NDivLo(a, k) == DivSmall(a, k)
-NDivHi(a, k) == LET qr == DivModSmall(a, k) IN IF qr[2] = 0 THEN qr[1] ELSE Add(qr[1], One)
+NShrCeil(a, n) == IF LowBytes(a, n) = <<>> THEN ShrBytes(a, n) ELSE FAdd(ShrBytes(a, n), One)
+NMulLo(a, b, nb) == ShrBytes(FMul(a, b), nb)
+NMulHi(a, b, nb) == NShrCeil(FMul(a, b), nb)
+NDivLo(a, k) == FDivModSmall(a, k)[1]
+NDivHiFin(qr) == IF qr[2] = 0 THEN qr[1] ELSE FAdd(qr[1], One)
+NDivHi(a, k) == NDivHiFin(FDivModSmall(a, k))
 
 \* rational -> fixed point (BigInt numerator at scale 2^(8 nb)), and back
-QFxFloor(q, nb) == IFloorDivMod(I(q.n.s, ShlBytes(q.n.m, nb)), q.d)[1]
+QFxFloorFin(q, qr) == IF q.n.s = 0 \/ qr[2] = <<>> THEN I(q.n.s, qr[1]) ELSE I(1, FAdd(qr[1], One))
+QFxFloor(q, nb) == QFxFloorFin(q, FDivMod(ShlBytes(q.n.m, nb), q.d))
 QFxCeil(q, nb) == INeg(QFxFloor(QNeg(q), nb))
+FxOne(nb) == ShlBytes(One, nb)
 FxQ(x, nb) == Q(x, FxOne(nb))
 
-QMin(a, b) == IF QLe(a, b) THEN a ELSE b
-QMax(a, b) == IF QLe(a, b) THEN b ELSE a
-QPowInt(q, n) ==       \* q^n for a native integer n (q # 0 when n < 0)
-  IF n >= 0 THEN Q(IPow(q.n, n), Pow(q.d, n))
-  ELSE QInv(Q(IPow(q.n, -n), Pow(q.d, -n)))
-
 \* floor(log2(n / d)) for naturals n, d # 0
-FloorLog2N(n, d) ==
-  LET e0 == BitLen(n) - BitLen(d)           \* 2^(e0-1) < n/d < 2^(e0+1)
-      ge == IF e0 >= 0 THEN Cmp(n, Shl(d, e0)) >= 0 ELSE Cmp(Shl(n, -e0), d) >= 0
-  IN IF ge THEN e0 ELSE e0 - 1
+FloorLog2E(n, d, e0) ==        \* 2^(e0-1) < n/d < 2^(e0+1)
+  IF (IF e0 >= 0 THEN Cmp(n, FShl(d, e0)) >= 0 ELSE Cmp(FShl(n, -e0), d) >= 0) THEN e0 ELSE e0 - 1
+FloorLog2N(n, d) == FloorLog2E(n, d, BitLen(n) - BitLen(d))
 
 \* floor(log_B |q|), q # 0: estimate from the binary logarithm, then decide by comparison.
 \* (FloatDef!FloorLog counts digits by repeated division, cubic in the length.)
 LogB2e5(B) == CASE B = 2 -> 100000 [] B = 3 -> 63093 [] B = 8 -> 33333 [] B = 10 -> 30103
                 [] B = 16 -> 25000 [] B = 36 -> 19343 [] OTHER -> 0
-FastFloorLog(B, q) ==
-  LET l2 == FloorLog2N(q.n.m, q.d)
-      c == LogB2e5(B)
-  IN IF c = 0 \/ l2 > 20000 \/ l2 < -20000 THEN FloorLog(B, q)
-     ELSE LET e0 == (l2 * c) \div 100000
-              aq == QAbs(q)
-              cands == (e0 - 2)..(e0 + 2)
-              S == {e \in cands : QLe(QPowBase(B, e), aq)}
-          IN IF S = {} \/ S = cands THEN FloorLog(B, q) ELSE Max(S)
+\* candidates e0-2 .. e0+2 around the estimate; the answer is the largest with B^e <= |q|
+FFLPick(B, q, e0, S) == IF S = {} \/ S = (e0 - 2)..(e0 + 2) THEN FloorLog(B, q) ELSE Max(S)
+FFLCands(B, q, aq, e0) == FFLPick(B, q, e0, {e \in (e0 - 2)..(e0 + 2) : FQLe(FQPowBase(B, e), aq)})
+FFLEst(B, q, l2, c) == IF c = 0 \/ l2 > 20000 \/ l2 < -20000 THEN FloorLog(B, q)
+                       ELSE FFLCands(B, q, QAbs(q), (l2 * c) \div 100000)
+FastFloorLog(B, q) == FFLEst(B, q, FloorLog2N(q.n.m, q.d), LogB2e5(B))
 
 \* ---------------------------------------------------------------- series
 (* exp(t / 2^w) * 2^w for a natural 0 <= t <= 2^w.  All terms are positive.
    Lo: every term rounded down, any truncation is a lower bound.
    Hi: every term rounded up; after term N >= 1 the tail t^(N+1)/(N+1)! + ... is at most
        term N * (u + u^2 + ...) with u = t/(N+1) <= 1/2, i.e. at most term N. *)
+ExpLoStep(sum, term) == <<term, FAdd(sum, term), term = <<>> >>
 ExpSeriesLo(t, nb) ==
-  LET one == FxOne(nb)
-      r == FoldLeftDomain(LAMBDA acc, i :
-             IF acc[3] THEN acc
-             ELSE LET term == NDivLo(NMulLo(acc[1], t, nb), i)
-                  IN <<term, Add(acc[2], term), term = <<>> >>,
-           <<one, one, FALSE>>, Zeros(8 * nb + 16))
-  IN r[2]
+  FoldLeftDomain(LAMBDA acc, i : IF acc[3] THEN acc ELSE ExpLoStep(acc[2], NDivLo(NMulLo(acc[1], t, nb), i)),
+                 <<FxOne(nb), FxOne(nb), FALSE>>, Zeros(8 * nb + 16))[2]
+ExpHiStep(sum, term) == <<term, FAdd(sum, term), Len(term) <= 1>>
+ExpHiFin(r) == FAdd(r[2], r[1])
 ExpSeriesHi(t, nb) ==
-  LET one == FxOne(nb)
-      r == FoldLeftDomain(LAMBDA acc, i :
-             IF acc[3] THEN acc
-             ELSE LET term == NDivHi(NMulHi(acc[1], t, nb), i)
-                  IN <<term, Add(acc[2], term), Len(term) <= 1>>,
-           <<one, one, FALSE>>, Zeros(8 * nb + 16))
-  IN Add(r[2], r[1])
+  ExpHiFin(FoldLeftDomain(LAMBDA acc, i : IF acc[3] THEN acc ELSE ExpHiStep(acc[2], NDivHi(NMulHi(acc[1], t, nb), i)),
+                          <<FxOne(nb), FxOne(nb), FALSE>>, Zeros(8 * nb + 16)))
 
 (* atanh(1/n) * 2^w for a native 2 <= n <= 2047: sum of 1 / (n^(2i+1) (2i+1)), divisions only.
    Tail after the term with power P = n^-(2N+1): at most P * z^2/(1-z^2) <= P (z <= 1/2). *)
-AtanhInv(n, nb) ==
-  LET one == FxOne(nb)
-      n2 == n * n
-      plo0 == NDivLo(one, n)
-      phi0 == NDivHi(one, n)
-      r == FoldLeftDomain(LAMBDA acc, i :
-             IF acc[5] THEN acc
-             ELSE LET plo == NDivLo(acc[1], n2)
-                      phi == NDivHi(acc[2], n2)
-                  IN <<plo, phi, Add(acc[3], NDivLo(plo, 2 * i + 1)), Add(acc[4], NDivHi(phi, 2 * i + 1)),
-                       Len(phi) <= 1>>,
-           <<plo0, phi0, plo0, phi0, FALSE>>, Zeros(4 * nb + 8))
-  IN <<r[3], Add(r[4], r[2])>>
+AtanhInvStep(acc, plo, phi, i) ==
+  <<plo, phi, FAdd(acc[3], NDivLo(plo, 2 * i + 1)), FAdd(acc[4], NDivHi(phi, 2 * i + 1)), Len(phi) <= 1>>
+AtanhInvFin(r) == <<r[3], FAdd(r[4], r[2])>>
+AtanhInvFrom(n, nb, plo0, phi0) ==
+  AtanhInvFin(FoldLeftDomain(LAMBDA acc, i : IF acc[5] THEN acc
+                                            ELSE AtanhInvStep(acc, NDivLo(acc[1], n * n), NDivHi(acc[2], n * n), i),
+                             <<plo0, phi0, plo0, phi0, FALSE>>, Zeros(4 * nb + 8)))
+AtanhInv(n, nb) == AtanhInvFrom(n, nb, NDivLo(FxOne(nb), n), NDivHi(FxOne(nb), n))
 
 \* ln 2 = 2 atanh(1/3)
-Ln2Encl(nb) == LET a == AtanhInv(3, nb) IN <<MulSmall(a[1], 2), MulSmall(a[2], 2)>>
+Ln2Fin(a) == <<FMulSmall(a[1], 2), FMulSmall(a[2], 2)>>
+Ln2Encl(nb) == Ln2Fin(AtanhInv(3, nb))
 
 (* atanh(z / 2^w) * 2^w for a natural 0 <= z <= 2^w / 4: sum of z^(2i+1) / (2i+1).
    Tail after the term with power P = z^(2N+1): at most P * z^2/(1-z^2) <= P / 15. *)
-AtanhLo(z, nb) ==
-  LET z2 == NMulLo(z, z, nb)
-      r == FoldLeftDomain(LAMBDA acc, i :
-             IF acc[3] THEN acc
-             ELSE LET pw == NMulLo(acc[1], z2, nb)
-                  IN <<pw, Add(acc[2], NDivLo(pw, 2 * i + 1)), pw = <<>> >>,
-           <<z, z, z = <<>> >>, Zeros(2 * nb + 8))
-  IN r[2]
-AtanhHi(z, nb) ==
-  LET z2 == NMulHi(z, z, nb)
-      r == FoldLeftDomain(LAMBDA acc, i :
-             IF acc[3] THEN acc
-             ELSE LET pw == NMulHi(acc[1], z2, nb)
-                  IN <<pw, Add(acc[2], NDivHi(pw, 2 * i + 1)), Len(pw) <= 1>>,
-           <<z, z, z = <<>> >>, Zeros(2 * nb + 8))
-  IN IF z = <<>> THEN <<>> ELSE Add(r[2], r[1])
+AtanhLoStep(sum, pw, i) == <<pw, FAdd(sum, NDivLo(pw, 2 * i + 1)), pw = <<>> >>
+AtanhLoSq(z, z2, nb) ==
+  FoldLeftDomain(LAMBDA acc, i : IF acc[3] THEN acc ELSE AtanhLoStep(acc[2], NMulLo(acc[1], z2, nb), i),
+                 <<z, z, z = <<>> >>, Zeros(2 * nb + 8))[2]
+AtanhLo(z, nb) == AtanhLoSq(z, NMulLo(z, z, nb), nb)
+AtanhHiStep(sum, pw, i) == <<pw, FAdd(sum, NDivHi(pw, 2 * i + 1)), Len(pw) <= 1>>
+AtanhHiFin(r) == FAdd(r[2], r[1])
+AtanhHiSq(z, z2, nb) ==
+  AtanhHiFin(FoldLeftDomain(LAMBDA acc, i : IF acc[3] THEN acc ELSE AtanhHiStep(acc[2], NMulHi(acc[1], z2, nb), i),
+                            <<z, z, FALSE>>, Zeros(2 * nb + 8)))
+AtanhHi(z, nb) == IF z = <<>> THEN <<>> ELSE AtanhHiSq(z, NMulHi(z, z, nb), nb)
 
 \* ---------------------------------------------------------------- exp
 (* a rational bound of exp(q): below it (upper = FALSE) or above it (upper = TRUE).
-   k is chosen so that r = x - k ln 2 lies in [0, 1] for the chosen direction; any integer k
-   would be sound, the Assert only guards the precondition of the series. *)
-ExpBound(q, nb, upper) ==
-  LET xf == IF upper THEN QFxCeil(q, nb) ELSE QFxFloor(q, nb)
-      l2 == Ln2Encl(nb)
-      kk == IF xf.s = 0 THEN IFloorDivMod(xf, l2[2])[1] ELSE IFloorDivMod(xf, l2[1])[1]
-      k == IF Len(kk.m) <= 2 THEN IToNative(kk) ELSE Assert(FALSE, <<"Enclosure!ExpBound argument too large", q>>)
-      \* subtract the largest k ln 2 for a lower bound of r, the smallest for an upper bound
-      lsub == IF (k >= 0) = upper THEN l2[1] ELSE l2[2]
-      r == ISub(xf, IMulSmall(I(0, lsub), k))
-      ok == r.s = 0 /\ Cmp(r.m, FxOne(nb)) <= 0
-      e == IF upper THEN ExpSeriesHi(r.m, nb) ELSE ExpSeriesLo(r.m, nb)
-  IN IF ~ok THEN Assert(FALSE, <<"Enclosure!ExpBound reduction out of range", q, nb>>)
-     ELSE IF k >= 0 THEN Q(I(0, Shl(e, k)), FxOne(nb)) ELSE Q(I(0, e), Shl(FxOne(nb), -k))
+   With x the fixed-point image of q (rounded in the wanted direction) and [l2lo, l2hi] ln 2:
+   k is the largest integer with r = x - k ln 2 >= 0 for the chosen bound of ln 2, found from a
+   native estimate; then 0 <= r <= ln 2 + |k| width <= 1.  Any integer k would be sound: the Assert
+   only guards the precondition of the series. *)
+ExpResult(e, k, nb) == IF k >= 0 THEN Q(I(0, FShl(e, k)), FxOne(nb)) ELSE Q(I(0, e), FShl(FxOne(nb), -k))
+ExpReduced(r, k, nb, upper) ==
+  IF r.s = 0 /\ Cmp(r.m, FxOne(nb)) <= 0
+  THEN ExpResult(IF upper THEN ExpSeriesHi(r.m, nb) ELSE ExpSeriesLo(r.m, nb), k, nb)
+  ELSE Assert(FALSE, <<"Enclosure!ExpBound reduction out of range", r, k, nb>>)
+\* r = x - k * (the bound of ln 2 that makes r a bound in the wanted direction)
+ExpRem(xf, l2, k, upper) == FISub(xf, FIMulSmall(I(0, IF (k >= 0) = upper THEN l2[1] ELSE l2[2]), k))
+\* the bound of ln 2 that decides the sign of r for this k: r >= 0 must hold for both directions
+ExpRemSign(xf, l2, k) == FISub(xf, FIMulSmall(I(0, IF k >= 0 THEN l2[2] ELSE l2[1]), k)).s = 0
+ExpWithK(xf, l2, k, nb, upper) == ExpReduced(ExpRem(xf, l2, k, upper), k, nb, upper)
+ExpPickK(xf, l2, k0, nb, upper) ==
+  ExpWithK(xf, l2, IF ExpRemSign(xf, l2, k0 + 1) THEN k0 + 1 ELSE IF ExpRemSign(xf, l2, k0) THEN k0
+                   ELSE IF ExpRemSign(xf, l2, k0 - 1) THEN k0 - 1 ELSE k0 - 2, nb, upper)
+\* native estimate of floor(x / ln 2) from t = floor(|x| * 256) (|x| below 4096): 256 ln 2 = 177.4457
+ExpEstT(neg, t) == IF t >= 1048576 THEN Assert(FALSE, <<"Enclosure!ExpBound argument too large", t>>)
+                   ELSE IF neg THEN -((t * 1000) \div 177446) - 1 ELSE (t * 1000) \div 177446
+ExpEstK(xf, nb) == IF Len(xf.m) > nb + 2 THEN Assert(FALSE, <<"Enclosure!ExpBound argument too large", xf>>)
+                   ELSE ExpEstT(xf.s = 1, ToNat(ShrBytes(xf.m, nb - 1)))
+ExpBoundFx(xf, l2, nb, upper) == ExpPickK(xf, l2, ExpEstK(xf, nb), nb, upper)
+ExpBound(q, nb, upper) == ExpBoundFx(IF upper THEN QFxCeil(q, nb) ELSE QFxFloor(q, nb), Ln2Encl(nb), nb, upper)
+
 (* exp is increasing: exp([a, b]) is inside [ExpBound(a, lower), ExpBound(b, upper)].
    For an argument of tiny magnitude the result is 1 + x + ...: the scale is enlarged by the
    leading zero bytes of x so that exp(x) - 1 is still known to about 8 nb bits (tightness only). *)
+TinyExtraOf(m) == Let(FloorLog2N(m.n.m, m.d), LAMBDA l2 : IF l2 < 0 THEN (-l2) \div 8 + 1 ELSE 0)
 TinyExtra(qlo, qhi) ==
-  IF QSign(qlo) * QSign(qhi) <= 0 THEN 0
-  ELSE LET m == IF QSign(qlo) > 0 THEN qlo ELSE qhi
-           l2 == FloorLog2N(m.n.m, m.d)
-       IN IF l2 < 0 THEN (-l2) \div 8 + 1 ELSE 0
-ExpEncl(qlo, qhi, nb) ==
-  LET nbe == nb + TinyExtra(qlo, qhi) IN <<ExpBound(qlo, nbe, FALSE), ExpBound(qhi, nbe, TRUE)>>
+  IF QSign(qlo) * QSign(qhi) <= 0 THEN 0 ELSE TinyExtraOf(IF QSign(qlo) > 0 THEN qlo ELSE qhi)
+ExpEnclAt(qlo, qhi, nbe) == <<ExpBound(qlo, nbe, FALSE), ExpBound(qhi, nbe, TRUE)>>
+ExpEncl(qlo, qhi, nb) == ExpEnclAt(qlo, qhi, nb + TinyExtra(qlo, qhi))
 
 \* ---------------------------------------------------------------- ln
-\* rational interval containing ln(q) for a rational q > 0
+(* rational interval containing ln(q) for a rational q > 0.
+   s = floor(log2(3q/2)), m = q / 2^s in [2/3, 4/3), z = (m - 1)/(m + 1) = (nn - dd)/(nn + dd), |z| <= 1/5.
+   Without the s ln 2 term the result is about 2 z: the scale keeps nb bytes below the leading bit of z. *)
+LnSum(s, l2, mlo, mhi, nbb) ==
+  LET slo == IF s = 0 THEN IZero ELSE IF s > 0 THEN I(0, FMulSmall(l2[1], s)) ELSE I(1, FMulSmall(l2[2], -s))
+      shi == IF s = 0 THEN IZero ELSE IF s > 0 THEN I(0, FMulSmall(l2[2], s)) ELSE I(1, FMulSmall(l2[1], -s))
+  IN <<FxQ(FIAdd(slo, mlo), nbb), FxQ(FIAdd(shi, mhi), nbb)>>
+LnAtanh(s, zneg, alo, ahi, nbb) ==
+  LnSum(s, IF s = 0 THEN <<(<<>>), (<<>>)>> ELSE Ln2Encl(nbb),
+        IF zneg THEN I(1, ahi) ELSE I(0, alo), IF zneg THEN I(1, alo) ELSE I(0, ahi), nbb)
+LnFx(s, zneg, zlo, zhi, nbb) ==
+  IF Cmp(FMulSmall(zhi, 4), FxOne(nbb)) > 0 THEN Assert(FALSE, <<"Enclosure!LnEncl reduction out of range", zhi, nbb>>)
+  ELSE LnAtanh(s, zneg, FMulSmall(AtanhLo(zlo, nbb), 2), FMulSmall(AtanhHi(zhi, nbb), 2), nbb)
+LnZq(s, zneg, qr, nbb) == LnFx(s, zneg, qr[1], IF qr[2] = <<>> THEN qr[1] ELSE FAdd(qr[1], One), nbb)
+LnZ(s, znum, zden, nbb) == LnZq(s, znum.s = 1, FDivMod(ShlBytes(znum.m, nbb), zden), nbb)
+LnScaled(s, znum, zden, nb) ==
+  IF s = 0 /\ znum.m = <<>> THEN <<QZero, QZero>>
+  ELSE LnZ(s, znum, zden, nb + (IF s = 0 THEN Max2(0, (-FloorLog2N(znum.m, zden)) \div 8) ELSE 0))
+LnParts(s, nn, dd, nb) == LnScaled(s, FISub(IFromNat(nn), IFromNat(dd)), FAdd(nn, dd), nb)
+LnShift(n, d, s, nb) == LnParts(s, IF s >= 0 THEN n ELSE FShl(n, -s), IF s >= 0 THEN FShl(d, s) ELSE d, nb)
 LnEncl(q, nb) ==
-  LET n == q.n.m
-      d == q.d
-      s == FloorLog2N(MulSmall(n, 3), MulSmall(d, 2))       \* 2/3 <= q / 2^s < 4/3
-      nn == IF s >= 0 THEN n ELSE Shl(n, -s)
-      dd == IF s >= 0 THEN Shl(d, s) ELSE d
-      znum == ISub(IFromNat(nn), IFromNat(dd))                \* z = (m - 1) / (m + 1), |z| <= 1/5
-      zden == Add(nn, dd)
-      az == Q(IAbs(znum), zden)
-      \* without the s ln 2 term the result is about 2 z: keep nb bytes *below* the leading bit of z
-      eb == IF s = 0 /\ znum.m # <<>> THEN Max2(0, (-FloorLog2N(znum.m, zden)) \div 8) ELSE 0
-      nbb == nb + eb
-      zlo == QFxFloor(az, nbb).m
-      zhi == QFxCeil(az, nbb).m
-      alo == MulSmall(AtanhLo(zlo, nbb), 2)
-      ahi == MulSmall(AtanhHi(zhi, nbb), 2)
-      mlo == IF znum.s = 1 THEN I(1, ahi) ELSE I(0, alo)
-      mhi == IF znum.s = 1 THEN I(1, alo) ELSE I(0, ahi)
-      l2 == Ln2Encl(nbb)
-      slo == IF s = 0 THEN IZero ELSE IF s > 0 THEN I(0, MulSmall(l2[1], s)) ELSE I(1, MulSmall(l2[2], -s))
-      shi == IF s = 0 THEN IZero ELSE IF s > 0 THEN I(0, MulSmall(l2[2], s)) ELSE I(1, MulSmall(l2[1], -s))
-  IN IF q.n.s = 1 \/ n = <<>> THEN Assert(FALSE, <<"Enclosure!LnEncl argument not positive", q>>)
-     ELSE IF Cmp(MulSmall(zhi, 4), FxOne(nbb)) > 0 THEN Assert(FALSE, <<"Enclosure!LnEncl reduction out of range", q>>)
-     ELSE IF s = 0 /\ znum.m = <<>> THEN <<QZero, QZero>>
-     ELSE <<FxQ(IAdd(slo, mlo), nbb), FxQ(IAdd(shi, mhi), nbb)>>
+  IF q.n.s = 1 \/ q.n.m = <<>> THEN Assert(FALSE, <<"Enclosure!LnEncl argument not positive", q>>)
+  ELSE LnShift(q.n.m, q.d, FloorLog2N(FMulSmall(q.n.m, 3), FMulSmall(q.d, 2)), nb)
 
 \* ---------------------------------------------------------------- real power
 \* x^y = exp(y ln x) for rationals x > 0, y
-PowEncl(x, y, nb) ==
-  LET l == LnEncl(x, nb)
-      a == IF QSign(y) >= 0 THEN <<QMul(l[1], y), QMul(l[2], y)>> ELSE <<QMul(l[2], y), QMul(l[1], y)>>
-  IN ExpEncl(a[1], a[2], nb)
+PowFromLn(l, y, nb) ==
+  IF QSign(y) >= 0 THEN ExpEncl(FQMul(l[1], y), FQMul(l[2], y), nb) ELSE ExpEncl(FQMul(l[2], y), FQMul(l[1], y), nb)
+PowEncl(x, y, nb) == PowFromLn(LnEncl(x, nb), y, nb)
 
 \* ---------------------------------------------------------------- the 1-ulp decision
 (* r: returned value; [lo, hi]: rationals with lo <= true value <= hi; p >= 1 digits in base B.
@@ -196,30 +281,33 @@ PowEncl(x, y, nb) ==
      HOLDS     : for every x in [lo, hi]: |r - x| <  ulp(x)
      FAILS     : for every x in [lo, hi]: |r - x| >= ulp(x)
      UNDECIDED : otherwise - the caller must enclose more tightly, never raise an alarm.
-   For FAILS, `cls` brackets the error: at least L ulp, less than U ulp (powers of two). *)
+   For FAILS, `cls` brackets the error: "marginal" = below (1 + 2^-10) ulp, otherwise at least L ulp
+   and less than U ulp with powers of two L, U. *)
+ErrUpper(dmax, umin) ==
+  FoldLeftDomain(LAMBDA acc, j : IF acc[2] THEN acc
+                                 ELSE IF FQLt(dmax, FQMulNat(umin, FShl(One, j))) THEN <<j, TRUE>> ELSE <<j, FALSE>>,
+                 <<0, FALSE>>, Zeros(20))
+ErrLower(dmin, umax) ==
+  FoldLeftDomain(LAMBDA acc, j : IF FQLe(FQMulNat(umax, FShl(One, j)), dmin) THEN j ELSE acc, 0, Zeros(20))
+P2Str(j) == ToString(ToNat(Shl(One, j)))
+ErrName(lw, up) == "error-ge" \o P2Str(lw) \o "ulp-lt" \o (IF up[2] THEN P2Str(up[1]) ELSE "INF") \o "ulp"
 ErrClass(dmin, dmax, umin, umax) ==
-  LET up == FoldLeftDomain(LAMBDA acc, j : IF acc[2] THEN acc
-                               ELSE IF QLt(dmax, QMulInt(umin, IFromNat(Shl(One, j)))) THEN <<j, TRUE>> ELSE <<j, FALSE>>,
-                           <<0, FALSE>>, Zeros(20))
-      lw == FoldLeftDomain(LAMBDA acc, j : IF QLe(QMulInt(umax, IFromNat(Shl(One, j))), dmin) THEN j ELSE acc,
-                           0, Zeros(20))
-      P2(j) == ToNat(Shl(One, j))
-  IN "error-ge" \o ToString(P2(lw)) \o "ulp-lt" \o (IF up[2] THEN ToString(P2(up[1])) ELSE "INF") \o "ulp"
+  IF FQLt(FQMulNat(dmax, FromNat(1024)), FQMulNat(umin, FromNat(1025))) THEN "error-ge1ulp-marginal"
+  ELSE ErrName(ErrLower(dmin, umax), ErrUpper(dmax, umin))
 
+DecideD(dmin, dmax, umin, umax) ==
+  IF FQLt(dmax, umin) THEN [v |-> "HOLDS", cls |-> ""]
+  ELSE IF FQLe(umax, dmin) THEN [v |-> "FAILS", cls |-> ErrClass(dmin, dmax, umin, umax)]
+  ELSE [v |-> "UNDECIDED", cls |-> ""]
+DecideU(r, lo, hi, dlo, dhi, umin, umax) ==
+  DecideD(IF FQLe(lo, r) /\ FQLe(r, hi) THEN QZero ELSE QMin(dlo, dhi), QMax(dlo, dhi), umin, umax)
+DecideE(B, p, r, lo, hi, elo, ehi) ==
+  DecideU(r, lo, hi, QAbs(FQSub(r, lo)), QAbs(FQSub(r, hi)),
+          FQPowBase(B, Min2(elo, ehi) - p + 1), FQPowBase(B, Max2(elo, ehi) - p + 1))
 Decide3(B, p, r, lo, hi) ==
   IF QIsZero(lo) /\ QIsZero(hi) THEN
      (IF QIsZero(r) THEN [v |-> "HOLDS", cls |-> ""] ELSE [v |-> "FAILS", cls |-> "nonzero-for-zero"])
   ELSE IF QSign(lo) * QSign(hi) <= 0 THEN [v |-> "UNDECIDED", cls |-> ""]
-  ELSE
-  LET elo == FastFloorLog(B, lo)
-      ehi == FastFloorLog(B, hi)
-      umin == QPowBase(B, Min2(elo, ehi) - p + 1)
-      umax == QPowBase(B, Max2(elo, ehi) - p + 1)
-      dlo == QAbs(QSub(r, lo))
-      dhi == QAbs(QSub(r, hi))
-      dmax == QMax(dlo, dhi)
-      dmin == IF QLe(lo, r) /\ QLe(r, hi) THEN QZero ELSE QMin(dlo, dhi)
-  IN IF QLt(dmax, umin) THEN [v |-> "HOLDS", cls |-> ""]
-     ELSE IF QLe(umax, dmin) THEN [v |-> "FAILS", cls |-> ErrClass(dmin, dmax, umin, umax)]
-     ELSE [v |-> "UNDECIDED", cls |-> ""]
+  ELSE IF lo = hi THEN Let(FastFloorLog(B, lo), LAMBDA e : DecideE(B, p, r, lo, hi, e, e))
+  ELSE DecideE(B, p, r, lo, hi, FastFloorLog(B, lo), FastFloorLog(B, hi))
 =============================================================================
